@@ -26,7 +26,7 @@ import (
 var emptyGuard = regexp.MustCompile(`^if len\((\w+)\.items\) == 0 \{ return \}$`)
 var flushLast = regexp.MustCompile(`^if len\((\w+)\.characters\) > 0 \{ (\w+)\.lines = append\((\w+)\.lines, (\w+)\) \}$`)
 
-func main() { ex.Main([]string{"ListFacts.lean", "DynSkel.lean"}, gen) }
+func main() { ex.Main([]string{"ListFacts.lean", "DynSkel.lean", "WidSkel.lean"}, gen) }
 
 // norm prints a node and collapses all white space.
 func norm(c *ex.Ctx, n ast.Node) string {
@@ -282,6 +282,8 @@ var wantBodies = map[string]string{
 
 func gen(c *ex.Ctx) {
 	var sb strings.Builder
+	// the widgets bodies as syntax (fresh parses: the code below renames and edits its ASTs)
+	genWidSkel(c, c.Parse("widgets/list/list.go"), c.Parse("widgets/pager/pager.go"), c.Parse("widgets/scrollbar/scrollbar.go"))
 	sb.WriteString("namespace VaxisModel.Gen.ListFacts\n\n")
 
 	// ---------------------------------------------------------------- widgets/list
